@@ -34,12 +34,12 @@ def nsTm := s "urn:xmpp:tm:1"
 def nsRtcpFb := s "urn:xmpp:jingle:apps:rtp:rtcp-fb:0"
 
 /-- element written with `writeDefaultNamespace`, looked up by tag and namespace -/
-def declHead (tag : String) (ns : Str) : Head := ⟨s tag, ns, true, false, false, false⟩
+def declHead (tag : String) (ns : Str) : Head := { tag := s tag, ns := ns, decl := true, anyNs := false, anyTag := false, nsAfter := false }
 /-- element written without namespace declaration (inherits `ns` from its parent), looked up by tag
 and namespace -/
-def inhHead (tag : String) (ns : Str) : Head := ⟨s tag, ns, false, false, false, false⟩
+def inhHead (tag : String) (ns : Str) : Head := { tag := s tag, ns := ns, decl := false, anyNs := false, anyTag := false, nsAfter := false }
 /-- element written without namespace declaration, looked up by tag only -/
-def anyHead (tag : String) (ns : Str) : Head := ⟨s tag, ns, false, true, false, false⟩
+def anyHead (tag : String) (ns : Str) : Head := { tag := s tag, ns := ns, decl := false, anyNs := true, anyTag := false, nsAfter := false }
 
 /-- `x == u"true" || x == u"1"` / `parseBoolean(x).value_or(false)`; written as `true` -/
 def boolTrue1 : FTy := .flag [s "true", s "1"]
@@ -138,7 +138,7 @@ def Sasl2Abort := nonza (declHead "abort" nsSasl2) [.textChild (inhHead "text" n
 
 /-- `QXmppExtendedAddress` (src/base/QXmppStanza.cpp:281-301): no type check, no namespace written -/
 def ExtendedAddress : Schema := {
-  head := ⟨s "address", [], false, false, false, false⟩, check := .unchecked, inh := [],
+  head := { tag := s "address", ns := [], decl := false, anyNs := false, anyTag := false, nsAfter := false }, check := .unchecked, inh := [],
   fields := [.attr (s "delivered") (.flag [s "true"]) true, .attr (s "desc") .str true,
     .attr (s "jid") .str false, .attr (s "type") .str false] }
 
@@ -193,12 +193,12 @@ def OutOfBandUrl := unchecked (declHead "x" nsOob) [
   .textChild (anyHead "url" nsOob) .str false, .child (anyHead "desc" nsOob) [.text .str] .optional]
 
 /-- `QXmppPubSubAffiliation` (src/base/QXmppPubSubAffiliation.cpp:29-36, 147-162) -/
-def PubSubAffiliation := unchecked ⟨s "affiliation", [], false, false, false, false⟩ [
+def PubSubAffiliation := unchecked { tag := s "affiliation", ns := [], decl := false, anyNs := false, anyTag := false, nsAfter := false } [
   .attr (s "affiliation") (.enumD (["none", "member", "outcast", "owner", "publisher", "publish-only"].map s) 0) false,
   .attr (s "node") .str true, .attr (s "jid") .str true]
 
 /-- `QXmppSdpParameter` (src/base/QXmppJingleData.cpp:2192-2208) -/
-def SdpParameter := unchecked ⟨s "parameter", [], false, false, false, false⟩ [
+def SdpParameter := unchecked { tag := s "parameter", ns := [], decl := false, anyNs := false, anyTag := false, nsAfter := false } [
   .attr (s "name") .str true, .attr (s "value") .str true]
 
 /-- `QXmppJingleRtpFeedbackInterval` (src/base/QXmppJingleData.cpp:2651-2662) -/
@@ -241,7 +241,7 @@ def streamFeaturesFieldsWith (sasl2 : List Field) : List Field := [
 inside `<stream:stream xmlns="jabber:client" xmlns:stream=…>`; `head.ns` is the default namespace in
 scope for its children.  `parse` has no type check. -/
 def streamFeaturesWith (sasl2 : List Field) : Schema :=
-  { head := ⟨s "stream:features", nsClient, false, false, false, false⟩, fields := streamFeaturesFieldsWith sasl2,
+  { head := { tag := s "stream:features", ns := nsClient, decl := false, anyNs := false, anyTag := false, nsAfter := false }, fields := streamFeaturesFieldsWith sasl2,
     check := .unchecked, inh := nsClient }
 def StreamFeatures := streamFeaturesWith (sasl2StreamFeatureFieldsWith fastFeatureFields)
 
@@ -270,7 +270,7 @@ or unset" and are carried as `Option Nat`, every negative number being "unset": 
 def nsRsm := s "http://jabber.org/protocol/rsm"
 def rsmSet : Head := { tag := s "set", ns := nsRsm, decl := true, anyNs := true, nsAfter := true }
 def rsmHolder (fields : List Field) (mode : ChildMode) : Schema :=
-  { head := ⟨s "x", [], false, false, false, false⟩, fields := [.child rsmSet fields mode],
+  { head := { tag := s "x", ns := [], decl := false, anyNs := false, anyTag := false, nsAfter := false }, fields := [.child rsmSet fields mode],
     check := .unchecked, inh := [] }
 def rsmInt (tag : String) (ty : FTy) : Field := .child (anyHead tag nsRsm) [.text ty] .wrapOmit
 /-- `QString` that is written when not null: absent ⇔ null -/
@@ -283,6 +283,31 @@ def rsmFirst : Field := .child (anyHead "first" nsRsm) [.attr (s "index") (.optI
 /-- `QXmppResultSetReply`; `<count/>` is read like the other integers since /repo 4885fb5 (before that with
 `toInt()` and no fallback: fixed findings C01:field-mismatch:ResultSetReply:set.2.0 and relatives) -/
 def ResultSetReply := rsmHolder [rsmFirst, rsmStr "last", rsmInt "count" (.optInt 31)] .wrapOmit
+
+/-! ### XEP-0060 PubSub IQ, one schema per query type (src/base/QXmppPubSubIq.cpp:421-634)
+
+`PubSubIqBase::parseElementFromChild` takes `iq.firstChildElement("pubsub")` (any namespace), then the FIRST element
+child of that as the query element; its tag selects the query type (`PUBSUB_QUERIES`), the namespace only separates
+the owner variants.  Each schema below describes ONE query type: which attributes of the query element are read and
+written (`jid`, `node` always; `subid` only for items / unsubscribe / options).  A document whose first child selects
+another query type is outside that schema (the harness leaves it out of the correspondence of that schema); so is an
+object carrying a data form (`<options/>`, `<configure/>` siblings), which these schemas do not describe. -/
+
+def nsPubsub := s "http://jabber.org/protocol/pubsub"
+def nsPubsubOwner := s "http://jabber.org/protocol/pubsub#owner"
+
+def pubsubQuery (ns : Str) (tag : String) (attrs : List String) : Schema :=
+  iqPayload (declHead "pubsub" ns) [.child (anyHead tag ns) (attrs.map fun a => .attr (s a) .str true) .wrapAlways]
+
+def PubSubIqUnsubscribe := pubsubQuery nsPubsub "unsubscribe" ["jid", "node", "subid"]
+def PubSubIqSubscribe := pubsubQuery nsPubsub "subscribe" ["jid", "node"]
+def PubSubIqOptions := pubsubQuery nsPubsub "options" ["jid", "node", "subid"]
+def PubSubIqCreate := pubsubQuery nsPubsub "create" ["jid", "node"]
+def PubSubIqDelete := pubsubQuery nsPubsubOwner "delete" ["jid", "node"]
+def PubSubIqPurge := pubsubQuery nsPubsubOwner "purge" ["jid", "node"]
+def PubSubIqConfigure := pubsubQuery nsPubsubOwner "configure" ["jid", "node"]
+def PubSubIqDefault := pubsubQuery nsPubsub "default" ["jid", "node"]
+def PubSubIqOwnerDefault := pubsubQuery nsPubsubOwner "default" ["jid", "node"]
 
 /-- every modelled class by the name the harness uses -/
 def all : List (String × Schema) := [
@@ -300,7 +325,11 @@ def all : List (String × Schema) := [
   ("RtpFeedbackInterval", RtpFeedbackInterval),
   ("TrustMessageKeyOwner", TrustMessageKeyOwner), ("TrustMessageElement", TrustMessageElement),
   ("StreamFeatures", StreamFeatures), ("ResultSetQuery", ResultSetQuery), ("ResultSetReply", ResultSetReply),
-  ("FastToken", FastToken), ("Sasl2Success", Sasl2Success)]
+  ("FastToken", FastToken), ("Sasl2Success", Sasl2Success),
+  ("PubSubIqUnsubscribe", PubSubIqUnsubscribe), ("PubSubIqSubscribe", PubSubIqSubscribe),
+  ("PubSubIqOptions", PubSubIqOptions), ("PubSubIqCreate", PubSubIqCreate), ("PubSubIqDelete", PubSubIqDelete),
+  ("PubSubIqPurge", PubSubIqPurge), ("PubSubIqConfigure", PubSubIqConfigure), ("PubSubIqDefault", PubSubIqDefault),
+  ("PubSubIqOwnerDefault", PubSubIqOwnerDefault)]
 
 def find (name : String) : Option Schema := (all.find? (·.1 == name)).map (·.2)
 
